@@ -574,6 +574,7 @@ func (c16) Plan(tier string) []fw.Unit {
 	us = append(us, fw.Unit{Check: "C16", Kind: "key-pairs", Tier: tier, Spec: fw.Spec(enumSpec{})})
 	us = append(us, fw.Unit{Check: "C16", Kind: "typed-keys", Tier: tier, Spec: fw.Spec(enumSpec{})})
 	us = append(us, fw.Unit{Check: "C16", Kind: "multi-join", Tier: tier, Spec: fw.Spec(enumSpec{})})
+	us = append(us, fw.Unit{Check: "C16", Kind: "same-print", Tier: tier, Spec: fw.Spec(enumSpec{})})
 	return us
 }
 
@@ -595,6 +596,9 @@ func (c16) Run(u fw.Unit) fw.Result {
 	}
 	if u.Kind == "multi-join" {
 		return c16MultiJoin()
+	}
+	if u.Kind == "same-print" {
+		return c16SamePrint()
 	}
 	sp := parseEnum(u)
 	cfg := c16Configs()[sp.Cfg]
